@@ -104,6 +104,11 @@ int main(int argc, char **argv) {
             if (o) { got++; printf("PACKET %u %lld %#x\n", o->n_filled_len, (long long)o->pts, o->flags); svt_av1_enc_release_out_buffer(&o); }
         }
         else if (!strcmp(op, "DRAIN")) { rc = 0; while (eos_sent && got < sent) { EbBufferHeaderType *o = NULL; rc = svt_av1_enc_get_packet(eh, &o, 1); if (!o) break; got++; svt_av1_enc_release_out_buffer(&o); } }
+        else if (!strcmp(op, "DRAIN_HOLD_REL2")) { /* retrieve every owed packet, keep them all, then (pipeline idle) release each one twice */
+            EbBufferHeaderType *keep[8]; int nk = 0; rc = 0;
+            while (eos_sent && got < sent && nk < 8) { EbBufferHeaderType *o = NULL; rc = svt_av1_enc_get_packet(eh, &o, 1); if (!o) break; got++; keep[nk++] = o; }
+            for (int k = 0; k < nk; k++) { EbBufferHeaderType *o = keep[k]; svt_av1_enc_release_out_buffer(&o); o = keep[k]; svt_av1_enc_release_out_buffer(&o); }
+        }
         else if (!strcmp(op, "REL_NULL")) { svt_av1_enc_release_out_buffer(NULL); rc = 0; }
         else if (!strcmp(op, "REL_PNULL")) { EbBufferHeaderType *o = NULL; svt_av1_enc_release_out_buffer(&o); rc = 0; }
         else if (!strcmp(op, "GR_NULLH")) { EbBufferHeaderType h; memset(&h, 0, sizeof h); h.p_buffer = reconbuf; h.n_alloc_len = sizeof reconbuf; rc = svt_av1_get_recon(NULL, &h); }
